@@ -501,6 +501,13 @@ class Run:
             except SetupFailed:
                 self.gen_shapes["raises_before_yield"] = self.gen_shapes.get("raises_before_yield", 0) + 1
                 return
+            except Exception as e:
+                if shape == "raises_before_yield" or not during_teardown:
+                    raise
+                # (a @context_teardown function called while the teardown is running - from a teardown callback - is a registration
+                # like any other: refusing it is a violation of its own, not "the calling callback raised")
+                self.trace.log("register-failed", cid, error=describe_exc(e))
+                return
             if how != "none":
                 self.other_ctx_calls += 1
             if shape != "normal":
